@@ -165,8 +165,19 @@ def handleTbl (fs : List (String × String)) : String := Id.run do
     idx := idx + 1
   return verdict agree bad (evCount ≥ 2) s!"tbl-{min (idx / 5) 4}" note
 
+/-- duplicates of an acknowledgement while the first one's handler runs: exactly one invocation, record gone -/
+def handleDupAck (fs : List (String × String)) : String :=
+  let calls := (getInt fs "calls").getD (-1)
+  let pending := (getInt fs "pending").getD (-1)
+  let bad : Option String :=
+    if calls != 1 then some s!"acknowledgement-for-an-answered-number-had-an-effect:handler-ran-{calls}-times"
+    else if pending != 0 then some s!"answered-record-not-discarded:pending={pending}"
+    else none
+  s!"{if bad.isNone then "agree" else "DISAGREE"} {match bad with | none => "ok" | some b => "BAD:" ++ b} nt=1 br=dupack "
+
 def handle (kind : String) (fs : List (String × String)) : String :=
   match kind with
+  | "dupack" => handleDupAck fs
   | "tbl" => handleTbl fs
   | "probe" => handleProbe fs
   | "senderr" => handleSendErr fs
